@@ -222,6 +222,16 @@ def r3(fx, chk):
         if m is None:
             chk.bad("R3", "%s|no-match" % ename, "TryFrom for %s is not a match table" % ename, site_of(f))
             continue
+        # the table must be keyed on the value itself: any masking / shifting / arithmetic on the scrutinee changes which
+        # inputs are accepted (decided with the bit-routing evaluator: every bit of the scrutinee is the same bit of the input)
+        sc = m["scrut"]
+        import bits as _bits
+        ev = _bits.Evaluator(fx)
+        bv = ev.ev(sc)
+        pname = None
+        ident = bv is not None and all(isinstance(b, tuple) and b[0] == "v" and b[2] == i for i, b in enumerate(bv.bits)) and len({b[1] for b in bv.bits}) == 1
+        chk.require(ident, "R3", "%s|scrutinee" % ename, "table keyed on the converted value itself",
+                    "TryFrom for %s matches on `%s`, not on the value: inputs that differ from a table entry only in the dropped/moved bits are accepted (or rejected) wrongly" % (ename, hirq.expr_str(sc)), site_of(f, sc.get("line")))
         seen = {}
         wild_err = False
         for pat, res, arm in tables.match_table(fx, m):
